@@ -37,3 +37,10 @@ func (p *Poller) VRunOne() (ran bool, err error) {
 
 func (p *Poller) VWakeupPending() bool { return atomic.LoadInt32(&p.wakeupCall) == 1 }
 func (p *Poller) VFds() (int, int)     { return p.fd, p.efd }
+
+// VSetSaturated emulates "at least highPriorityEventsThreshold (1024) urgent tasks are pending": with threshold 0 every
+// low-priority request is shunted to the low-priority queue, as it would be behind a backlog of 1024 urgent tasks
+func (p *Poller) VSetSaturated() { p.highPriorityEventsThreshold = 0 }
+
+// VSetUnsaturated restores the default threshold (the backlog has drained)
+func (p *Poller) VSetUnsaturated() { p.highPriorityEventsThreshold = MaxPollEventsCap }
